@@ -1,5 +1,6 @@
 import G3D.Proofs.Xf
-/-! # C13 — queries commute with lattice isometries and uniform scaling  (partial; extended by G3D/Proofs/Xf2 when present)
+import G3D.Proofs.Xf2
+/-! # C13 — queries commute with lattice isometries and uniform scaling  (partial only for intersection results of polygons / polyhedra)
     `SP` = the 48 signed axis permutations, `Xf` = signed permutation ∘ scaling by k > 0 ∘ translation. -/
 namespace G3D.Props.C13
 open G3D V3
@@ -26,4 +27,41 @@ theorem transformation_bijective (T : Xf) (hk : 0 < T.k) :
 theorem intersection_equivariant_flat (T : Xf) (hk : 0 < T.k) (a b : Geo) (ha : a.WF) (hb : b.WF) :
     ∃ o o', interFlat a b = .ok o ∧ interFlat (T.geo a) (T.geo b) = .ok o' ∧
       ∀ x, denOpt o' (T.pt x) ↔ denOpt o x := interFlat_xf T hk a b ha hb
+/-! ### leaves angle, parallel, orthogonal and equality unchanged -/
+theorem angle_parallel_orthogonal_invariant (T : Xf) (hk : 0 < T.k) (a b : AObj) :
+    angleRep (T.aobj a) (T.aobj b) = angleRep a b ∧ parallelG (T.aobj a) (T.aobj b) = parallelG a b ∧
+    orthogonalG (T.aobj a) (T.aobj b) = orthogonalG a b :=
+  ⟨T.angleRep_aobj hk a b, T.parallelG_aobj hk a b, T.orthogonalG_aobj hk a b⟩
+
+theorem equality_invariant (T : Xf) (hk : 0 < T.k) (a b : Geo) : geoEqv (T.geo a) (T.geo b) = geoEqv a b :=
+  T.geoEqv_geo hk a b
+
+/-- the membership TEST itself (Bool) commutes, not only the denoted sets -/
+theorem membership_test_invariant (T : Xf) (hk : 0 < T.k) (g : Geo) (hg : g.WF) (x : V3) :
+    geoContains (T.geo g) (T.pt x) = geoContains g x := T.geoContains_geo hk g hg x
+
+/-! ### multiplies distance and length by k, area by k², volume by k³ (squared / numerator forms) -/
+theorem distance_scales (T : Xf) (hk : 0 < T.k) (a b : Geo) (ha : a.WF) (hb : b.WF) :
+    distSqGeo (T.geo a) (T.geo b) = (distSqGeo a b).map (Except.map (T.k^2 * ·)) := T.distSqGeo_geo hk a b ha hb
+
+theorem length_scales (T : Xf) (s : Seg) (P : Polygon) :
+    (T.seg s).lenSq = T.k^2 * s.lenSq ∧ (T.polygon P).edgeLenSqs = P.edgeLenSqs.map (T.k^2 * ·) :=
+  ⟨T.seg_lenSq s, T.polygon_edgeLenSqs P⟩
+
+/-- polygon (same vertex order, pseudo-vector normal): stays Valid, membership test commutes, area numerator × k² with
+    the same normal length, i.e. area × k² -/
+theorem polygon_symmetry (T : Xf) (hk : 0 < T.k) (P : Polygon) (hv : P.Valid) (x : V3) :
+    (T.polygon P).Valid ∧ (T.polygon P).contains (T.pt x) = P.contains x ∧
+    ((T.polygon P).areaNum = T.k^2 * P.areaNum ∧ normSq (T.polygon P).plane.n = normSq P.plane.n) ∧
+    (InHull (T.pts P.pts) (T.pt x) ↔ InHull P.pts x) :=
+  ⟨T.polygon_valid hk P hv, T.polygon_contains hk P x, T.polygon_areaNum hk P, T.InHull_pts hk P.pts x⟩
+
+/-- polyhedron with outward normals (vertex cycles reversed under reflections): membership test commutes, volume × k³ -/
+theorem polyhedron_symmetry (T : Xf) (hk : 0 < T.k) (B : Polyhedron) (hv : ∀ pa ∈ B.pyramids, pa.1.Valid) (x : V3) :
+    (T.body B).contains (T.pt x) = B.contains x ∧ (T.body B).volume = T.k^3 * B.volume :=
+  ⟨T.body_contains hk B x, T.body_volume hk B hv⟩
+
+/-- the surface-integral volume of ANY closed surface scales by k³ (absolute value; det = ±1) -/
+theorem closed_surface_volume_scales (T : Xf) (hk : 0 < T.k) (fs : List (List V3)) (hc : ClosedSurface fs) (q q' : V3) :
+    absQ (vol6 (T.surface fs) q') = T.k^3 * absQ (vol6 fs q) := T.abs_vol6_closed hk fs hc q q'
 end G3D.Props.C13
